@@ -3,6 +3,7 @@
   Model: Vlsp.ConfigM (serde view of LspConfig, spawn_fetch_configuration) + Vlsp.Server gates.
 -/
 import Vlsp.Model.Config
+import Vlsp.Props.C08
 
 namespace Vlsp.C14
 open Vlsp Vlsp.Text Vlsp.Json Vlsp.ConfigM Vlsp.Server
@@ -52,9 +53,10 @@ theorem keys_eq : Generated.configTopKeys = ["cache", "registries", "ignorePrere
 /-- missing options take their documented defaults: everything enabled, prereleases ignored, 24 h -/
 theorem c14_defaults : parseConfig (.obj []) = some ⟨[], true, 86400000⟩ := by decide
 
-/-- a null answer means all defaults -/
-theorem c14_null_is_default (s : Srv) : (applyAnswer s (.value .null)) = ({ s with cfg := ⟨[], true, 86400000⟩ }, []) := by
-  simp [applyAnswer, keys_eq, defaultConfig]
+/-- a null answer means all defaults (handed to the cache as well) -/
+theorem c14_null_is_default (s : Srv) :
+    (applyAnswer s (.value .null)) = ({ s with cfg := ⟨[], true, 86400000⟩, ccfg := ⟨86400000, true⟩ }, []) := by
+  simp [applyAnswer, applyConfig, keys_eq, defaultConfig, (by decide : Generated.configReachesCache = true)]
 
 /-- a failing / unsupported configuration request, or an empty answer, changes nothing and shows nothing -/
 theorem c14_request_failure_harmless (s : Srv) : applyAnswer s .failed = (s, []) ∧ applyAnswer s .empty = (s, []) :=
@@ -130,30 +132,77 @@ theorem c14_unknown_keys_ignored (kvs : List (Text × Json)) (k : Text) (v : Jso
   unfold parseConfig
   rw [structFields_append _ kvs k v hk]
 
-/-! ### the two options that never take effect (F-C14-1, F-C14-2) -/
+/-! ### the two cache options (F-C14-1, F-C14-2 — repaired) -/
 
-/-- full statement (kept; FALSE): after any accepted answer the cache uses the answered values -/
+/-- regenerated from the source on every run: `spawn_fetch_configuration` hands the two values to the storer,
+    `Cache::configure` stores them, and the start-up refresh awaits the configuration task -/
+theorem flags_eq : Generated.configReachesCache = true ∧ Generated.refreshWaitsForConfig = true := by decide
+
+/-- full statement: after any accepted answer the cache uses the answered values -/
 def c14_options_full : Prop :=
   ∀ (s : Srv) (j : Json) (c : Config), parseConfig j = some c →
     (applyAnswer s (.value j)).1.ccfg = ⟨c.refreshInterval, c.ignorePrerelease⟩
 
-/-- **whatever the client answers, the cache keeps the parameters it was constructed with**: neither
-    `ignorePrerelease` nor `cache.refreshInterval` can ever reach it -/
-theorem c14_deviation_cache_params (s : Srv) (a : Answer) : (applyAnswer s a).1.ccfg = s.ccfg := by
-  unfold applyAnswer
-  cases a with
-  | failed => rfl
-  | empty => rfl
-  | value j =>
-    cases j <;> simp only <;> (try split) <;> (try split) <;> rfl
+theorem parseConfig_null : parseConfig .null = none := by decide
 
-theorem c14_options_full_false : ¬ c14_options_full := by
-  intro h
-  have := h {} (.obj [("ignorePrerelease".toList, .bool false)]) ⟨[], false, 86400000⟩ (by decide)
-  rw [c14_deviation_cache_params] at this
-  have h2 : ({} : Srv).ccfg = ⟨86400000, true⟩ := by decide
-  rw [h2] at this
-  cases this
+theorem applyAnswer_accepted (s : Srv) (j : Json) (c : Config) (h : parseConfig j = some c) :
+    applyAnswer s (.value j) = (applyConfig s c, []) := by
+  unfold applyAnswer
+  cases j with
+  | null => rw [parseConfig_null] at h; cases h
+  | _ => simp only [h]
+
+theorem c14_options_full_holds : c14_options_full := by
+  intro s j c h
+  rw [applyAnswer_accepted s j c h]
+  simp [applyConfig, flags_eq.1]
+
+/-- **`ignorePrerelease` decides whether a prerelease can be reported as latest**: after an accepted answer every
+    "latest" read (diagnostics and code actions go through `readsOf`) is computed with the answered flag -/
+theorem c14_ignore_prerelease_decides (s : Srv) (j : Json) (c : Config) (h : parseConfig j = some c) (k : Key)
+    (hf : failing s k.name 'L' = false) :
+    (readsOf (applyAnswer s (.value j)).1 k).latest =
+      some (Latest.getLatest c.ignorePrerelease (s.db.tagOf k "latest".toList) (s.db.versionsOf k)) := by
+  rw [applyAnswer_accepted s j c h]
+  have hf' : failing (applyConfig s c) k.name 'L' = false := hf
+  have hcc : (applyConfig s c).ccfg = ⟨c.refreshInterval, c.ignorePrerelease⟩ := by simp [applyConfig, flags_eq.1]
+  have hdb : (applyConfig s c).db = s.db := rfl
+  simp only [readsOf, hf', Bool.false_eq_true, if_false, hcc, hdb, Cache.getLatestVersion]
+
+/-- **`cache.refreshInterval` decides how old a package may be before it is refreshed**: the start-up refresh runs
+    after the answer has been applied and asks for exactly the packages that are stale by the ANSWERED interval -/
+theorem c14_startup_uses_answer (s : Srv) (j : Json) (c : Config) (h : parseConfig j = some c) (regs : List Text) :
+    startUp s (.value j) regs = (regs.foldl (fun s r => Server.startRefresh s r) (applyConfig s c), []) := by
+  unfold startUp
+  simp only [flags_eq.2, if_true]
+  rw [applyAnswer_accepted s j c h]
+
+theorem c14_refresh_interval_decides (s : Srv) (c : Config) (reg n : Text) (hi : Db.Inv s.db)
+    (hreg : Cache.knownRegistry reg = true) :
+    n ∈ refreshDue (applyConfig s c) reg ↔
+      ∃ p, s.db.findPkg ⟨reg, n⟩ = some p ∧ p.updatedAt < s.now - c.refreshInterval ∧ p.notFound = false := by
+  have hcc : (applyConfig s c).ccfg = ⟨c.refreshInterval, c.ignorePrerelease⟩ := by simp [applyConfig, flags_eq.1]
+  have hdb : (applyConfig s c).db = s.db := rfl
+  have hnow : (applyConfig s c).now = s.now := rfl
+  unfold refreshDue
+  rw [hcc, hdb, hnow]
+  rw [← C08.c08_refresh_iff ⟨c.refreshInterval, c.ignorePrerelease⟩ s.db s.now ⟨reg, n⟩ hi hreg]
+  simp only [List.mem_map, List.mem_filter, beq_iff_eq]
+  constructor
+  · rintro ⟨k, ⟨hk, hr⟩, rfl⟩
+    cases k; simp only at hr; subst hr; exact hk
+  · intro hk
+    exact ⟨⟨reg, n⟩, ⟨hk, rfl⟩, rfl⟩
+
+/-- a rejected / failed / empty answer leaves the cache's parameters alone (the previous settings stay in force) -/
+theorem c14_rejected_keeps_cache_params (s : Srv) (a : Answer)
+    (h : a = .failed ∨ a = .empty ∨ ∃ j, a = .value j ∧ j ≠ .null ∧ parseConfig j = none) :
+    (applyAnswer s a).1.ccfg = s.ccfg := by
+  rcases h with rfl | rfl | ⟨j, rfl, hn, hb⟩
+  · rfl
+  · rfl
+  · unfold applyAnswer
+    cases j <;> first | exact absurd rfl hn | simp only [hb]
 
 /-- F-C14-3: a JSON array is accepted as a positional LspConfig instead of being reported malformed -/
 theorem c14_deviation_array :
